@@ -1,6 +1,10 @@
 import LinOp.C15.ProofsSem
 import LinOp.C15.ProofsBind
 import LinOp.C15.Gen
+import LinOp.C15.BindNames
+import LinOp.C15.BindVar
+import LinOp.C15.ProofsRect
+import LinOp.C15.Pinned
 /-!
 C15 — torch.* dispatch on operators matches the methods, in either argument order.
 Property theorems only.
@@ -551,5 +555,299 @@ example : "DiagLinearOperator" ∈ operatorClasses ∧ "ConstantDiagLinearOperat
     isSubclass classes "ConstantDiagLinearOperator" "DiagLinearOperator" = true ∧
     ("torch.sub", "sub") ∈ handledFirst ∧ ("torch.sub", "__rsub__") ∈ handledSecond ∧ BinFn.ofName "torch.sub" = some .sub ∧
     typesOK [.opc "ConstantDiagLinearOperator", .opc "DiagLinearOperator"] = true := by decide +kernel
+
+/-! ### Session 5 — parameter names that differ between torch and the method (transpose, linalg.solve, permute) -/
+
+section RenamedParameters
+
+/-- **Keyword forms never bind on both sides** (any signatures with `onlyPositional`): if torch's binding and the method's
+binding both accept `f(op, *pos, **kw)`, then there are no keywords at all, and on both sides the positional values land by
+position and the remaining parameters take their defaults. -/
+theorem renamed_keyword_forms_never_bind (sigM sigT : Sig) (h : onlyPositional sigM sigT = true)
+    (pos : List String) (kw envM envT : Env) (hM : bind sigM pos kw = .ok envM) (hT : bind sigT pos kw = .ok envT) :
+    kw = [] ∧ pos.length ≤ sigM.length ∧
+      envM.map (·.2) = pos ++ (sigM.drop pos.length).map (fun p => p.dflt.getD "") ∧
+      envT.map (·.2) = pos ++ (sigT.drop pos.length).map (fun p => p.dflt.getD "") := by
+  have hk := onlyPositional_kw_nil h hM hT
+  subst hk
+  exact ⟨rfl, (bind_positional_values hM).1, (bind_positional_values hM).2, (bind_positional_values hT).2⟩
+
+/-- A keyword that is not a parameter of the method (`dim0=` for `transpose(self, dim1, dim2)`, `left=` for `solve`, `dims=` for
+`permute`) makes the handler raise `TypeError` — whatever else is passed. -/
+theorem unknown_keyword_raises (sig : Sig) (pos : List String) (kw : Env) (e : String × String) (he : e ∈ kw)
+    (hn : e.1 ∉ sig.names) : ∃ err, bind sig pos kw = .error err :=
+  bind_unknown_keyword_fails sig pos kw e he hn
+
+/-- A keyword naming a parameter that a positional value already filled (`torch.transpose(op, 0, dim1=1)`: the method's `dim1`
+is its *first* dim parameter) makes the handler raise `TypeError` ("multiple values"). -/
+theorem keyword_for_positionally_filled_raises (sig : Sig) (pos : List String) (kw : Env) (e : String × String) (he : e ∈ kw)
+    (hn : e.1 ∈ Sig.names (sig.take pos.length)) : ∃ err, bind sig pos kw = .error err :=
+  bind_duplicate_fails sig pos kw e he hn
+
+/-- The registered functions whose parameter names differ from the method's: (torch function, method, number of operands). -/
+def renamedEntries : List (String × String × Nat) :=
+  [("torch.transpose", "transpose", 1), ("torch.linalg.solve", "solve", 2)]
+
+def renamedOK (c : String) (r : String × String × Nat) : Bool :=
+  handledFirst.contains (r.1, r.2.1) &&
+    match handlerSig c r.2.1, torchSig r.1 with
+    | some sM, some (n, sT) => n == r.2.2 && Sig.simple (sM.drop n) && Sig.simple sT && onlyPositional (sM.drop n) sT
+    | _, _ => false
+
+/-- Generated signatures, every operator class: for `torch.transpose` and `torch.linalg.solve` the handler's signature and torch's
+have no common keyword form. -/
+theorem table_renamed_only_positional : ∀ c ∈ operatorClasses, ∀ r ∈ renamedEntries, renamedOK c r = true := by
+  decide +kernel
+
+/-- **transpose / linalg.solve on the generated signatures**: every call form that both torch and the handler found on class `c`
+accept is purely positional, the values reach the parameters by position and the rest stay at the defaults; every keyword form
+makes one of the two raise `TypeError` (never a silently different binding). -/
+theorem renamed_forward_generated (c : String) (hc : c ∈ operatorClasses) (r : String × String × Nat) (hr : r ∈ renamedEntries)
+    (sM sT : Sig) (n : Nat) (hM : handlerSig c r.2.1 = some sM) (hT : torchSig r.1 = some (n, sT))
+    (pos : List String) (kw envM envT : Env)
+    (hbM : bind (sM.drop n) pos kw = .ok envM) (hbT : bind sT pos kw = .ok envT) :
+    kw = [] ∧ envM.map (·.2) = pos ++ ((sM.drop n).drop pos.length).map (fun p => p.dflt.getD "") ∧
+      envT.map (·.2) = pos ++ (sT.drop pos.length).map (fun p => p.dflt.getD "") := by
+  have h := table_renamed_only_positional c hc r hr
+  simp only [renamedOK, hM, hT, Bool.and_eq_true] at h
+  obtain ⟨h1, _, h3, h4⟩ := renamed_keyword_forms_never_bind _ _ h.2.2 pos kw envM envT hbM hbT
+  exact ⟨h1, h3, h4⟩
+
+/-- Generated: `transpose`'s two dims and torch's `dim0, dim1` are all required, in this order. -/
+theorem table_transpose_required :
+    ∀ c ∈ operatorClasses, (handlerSig c "transpose").map (fun s => (s.drop 1).map (·.dflt)) = some [none, none] ∧
+      (torchSig "torch.transpose").map (fun s => (s.1, s.2.map (·.dflt))) = some (1, [none, none]) := by
+  decide +kernel
+
+/-- **`torch.transpose(op, …)`**: a call accepted by both sides is `torch.transpose(op, a, b)` with two positional dims, and the
+handler's `(dim1, dim2)` are torch's `(dim0, dim1)`: `(a, b)`. -/
+theorem transpose_forwarding_generated (c : String) (hc : c ∈ operatorClasses) (sM sT : Sig) (n : Nat)
+    (hM : handlerSig c "transpose" = some sM) (hT : torchSig "torch.transpose" = some (n, sT))
+    (pos : List String) (kw envM envT : Env)
+    (hbM : bind (sM.drop n) pos kw = .ok envM) (hbT : bind sT pos kw = .ok envT) :
+    kw = [] ∧ pos.length = 2 ∧ envM.map (·.2) = pos ∧ envT.map (·.2) = pos := by
+  obtain ⟨hk, h1, h2⟩ := renamed_forward_generated c hc ("torch.transpose", "transpose", 1) (by decide) sM sT n hM hT pos kw envM envT hbM hbT
+  have ht := table_transpose_required c hc
+  rw [hM, hT] at ht
+  simp only [Option.map_some, Option.some.injEq, Prod.mk.injEq] at ht
+  obtain ⟨htM, hn, htT⟩ := ht
+  subst hn hk
+  have hlenT : sT.length = 2 := by
+    have := congrArg List.length htT
+    rwa [List.length_map] at this
+  have hlM : (sM.drop 1).length = 2 := by
+    have := congrArg List.length htM
+    rwa [List.length_map] at this
+  have hall : ∀ p ∈ sT, p.dflt = none := by
+    intro p hp
+    have : p.dflt ∈ sT.map (fun x => x.dflt) := List.mem_map.2 ⟨p, hp, rfl⟩
+    rw [htT] at this
+    simpa using this
+  have hle := (bind_positional_values hbT).1
+  -- a dim left out would be a missing required parameter
+  obtain ⟨_, _, _, _, hreq, _⟩ := bind_ok hbT
+  have hlen : pos.length = 2 := by
+    refine Classical.byContradiction fun hne => ?_
+    cases hdr : sT.drop pos.length with
+    | nil =>
+      have := congrArg List.length hdr
+      simp only [List.length_drop, List.length_nil] at this
+      omega
+    | cons p tl =>
+      have hp : p ∈ sT.drop pos.length := by rw [hdr]; exact List.mem_cons_self
+      exact hreq p hp (by simp) (hall p (List.mem_of_mem_drop hp))
+  refine ⟨rfl, hlen, ?_, ?_⟩
+  · rw [h1]
+    have : ((sM.drop 1).drop pos.length) = [] := List.drop_eq_nil_of_le (by omega)
+    rw [this]; simp
+  · rw [h2]
+    have : (sT.drop pos.length) = [] := List.drop_eq_nil_of_le (by omega)
+    rw [this]; simp
+
+/-- `permute(self, *dims)`: the signature on every operator class. -/
+theorem table_permute_signature :
+    ∀ c ∈ operatorClasses, handlerSig c "permute" = some [⟨"self", .pos, none⟩, ⟨"dims", .varPos, none⟩] ∧
+      ("torch.permute", "permute") ∈ handledFirst := by
+  decide +kernel
+
+/-- **`torch.permute(op, …)` on every operator class**: the handler is `permute(self, *dims)`; any number of positional values after
+the operator is accepted and packed into `dims` (torch passes its single `dims` tuple, which the method unpacks), and **every**
+keyword form — `dims=…` in particular, which dense torch accepts — makes the handler raise `TypeError`. -/
+theorem permute_binding_generated (c : String) (hc : c ∈ operatorClasses) (self : String) (vs : List String) (kw : Env) :
+    ∃ sig, handlerSig c "permute" = some sig ∧
+      bindPy sig (self :: vs) [] = .ok [("self", self), ("*", "(" ++ ",".intercalate vs ++ ")")] ∧
+      (kw ≠ [] → ∃ err, bindPy sig (self :: vs) kw = .error err) :=
+  ⟨permSig, (table_permute_signature c hc).1, permute_positional self vs, permute_keyword_fails self vs kw⟩
+
+end RenamedParameters
+
+/-! ### Session 5 — rectangular operands, `div`, `isclose` with order semantics, `sum(dim)` -/
+
+/-- **The hand-mirrored bodies are today's bodies** (generated by `harness/extract/c15_bodies.py`): `isclose`, `_risclose`,
+`_isclose`, `div` and `sum` of class `LinearOperator` read exactly as in `LinOp/C15/Pinned.lean` (`sum` with or without the
+statement of notes/C15_fix_7.diff, consistently with the generated flag `sumBelowRaises`); and structurally: `_isclose` passes
+`(self, other)` and `_risclose` passes `(other, self)` to `torch.isclose`. -/
+theorem table_bodies_pinned :
+    (∀ e ∈ pinnedBodies, e.1 ≠ "sum" → bodies.lookup e.1 = some e.2) ∧
+    ((sumBelowRaises = false ∧ bodies.lookup "sum" = pinnedBodies.lookup "sum") ∨
+      (sumBelowRaises = true ∧ bodies.lookup "sum" = some pinnedSumFixed)) ∧
+    closeOrders.lookup "_isclose" = some ["self", "other"] ∧ closeOrders.lookup "_risclose" = some ["other", "self"] := by
+  decide +kernel
+
+section Rectangular
+variable {α : Type} [CommRing α] {n k p : Nat}
+
+/-- Generated tables, every operator class: the second-argument handlers of `torch.matmul` / `Tensor.matmul` are `rmatmul` /
+`__rmatmul__`, the first-argument handler is `matmul`, and all resolve. -/
+theorem table_matmul_rect_sound :
+    ∀ c ∈ operatorClasses,
+      (∀ e ∈ handledSecond, BinFn.ofName e.1 = some .matmul → secondMMOK genTables c e = true) ∧
+      (∀ e ∈ handledFirst, BinFn.ofName e.1 = some .matmul → firstMMOK genTables c e = true) := by
+  decide +kernel
+
+/-- **Tensor · Op, rectangular**: `torch.matmul(x, op)`, `x.matmul(op)`, `x @ op` with `x : n × k`, `op : k × p` evaluate to the
+`n × p` product `X · A` in this order, on every operator class, for all sizes. -/
+theorem second_arg_matmul_rect_generated (c : String) (hc : c ∈ operatorClasses) (e : String × String) (he : e ∈ handledSecond)
+    (hb : BinFn.ofName e.1 = some .matmul) (a0 : Arg) (h0 : a0.plain = true) (X : Mat α n k) (A : Mat α k p) :
+    evalMM genTables e.1 a0 (.op c) X A = .ok (Mat.mul X A) :=
+  evalMM_second genTables c e ((table_matmul_rect_sound c hc).1 e he hb) a0 h0 X A
+
+/-- **Op · Tensor, rectangular.** -/
+theorem first_arg_matmul_rect_generated (c : String) (hc : c ∈ operatorClasses) (e : String × String) (he : e ∈ handledFirst)
+    (hb : BinFn.ofName e.1 = some .matmul) (a1 : Arg) (h1 : a1.plain = true) (A : Mat α n k) (X : Mat α k p) :
+    evalMM genTables e.1 (.op c) a1 A X = .ok (Mat.mul A X) :=
+  evalMM_first genTables c e ((table_matmul_rect_sound c hc).2 e he hb) a1 h1 A X
+
+/-- `rmatmul` on rectangular operands is left multiplication: `(AᵀXᵀ)ᵀ = X A` for `A : k × p`, `X : n × k`. -/
+theorem rmatmul_rect_is_left_multiplication (A : Mat α k p) (X : Mat α n k) : rmatmulR A X = Mat.mul X A :=
+  rmatmulR_eq A X
+
+/-- **Tensor ∘ Op, elementwise, rectangular** (`add`, `sub`, `mul`, `Tensor.add/sub/mul`): right order and sign on `n × k`
+operands, every operator class. -/
+theorem second_arg_elementwise_rect_generated (c : String) (hc : c ∈ operatorClasses) (e : String × String)
+    (he : e ∈ handledSecond) (hne : e.1 ≠ "torch.isclose") (a0 : Arg) (h0 : a0.plain = true) (X A : Mat α n k) :
+    ∃ b, BinFn.ofName e.1 = some b ∧ (b ≠ .matmul → evalEW genTables e.1 a0 (.op c) X A none = specEW b X A none) := by
+  rcases table_second_sound c hc e he with h | h
+  · exact absurd h hne
+  · exact evalEW_second genTables c e h a0 h0 X A
+
+/-- …with `alpha`: `torch.add/sub(x, op, alpha=a)`, `x.add/sub(op, alpha=a)` are `X ± a·A` on `n × k` operands. -/
+theorem second_arg_alpha_rect_generated (c : String) (hc : c ∈ operatorClasses) (e : String × String)
+    (he : e ∈ handledSecond) (hb : BinFn.ofName e.1 = some .add ∨ BinFn.ofName e.1 = some .sub)
+    (a0 : Arg) (h0 : a0.plain = true) (X A : Mat α n k) (a : α) :
+    ∃ b, BinFn.ofName e.1 = some b ∧ evalEW genTables e.1 a0 (.op c) X A (some a) = specEW b X A (some a) :=
+  evalEW_second_alpha genTables c e (table_second_alpha_sound c hc e he hb) a0 h0 X A a
+
+/-- **Op ∘ Tensor, elementwise, rectangular.** -/
+theorem first_arg_elementwise_rect_generated (c : String) (hc : c ∈ operatorClasses) (e : String × String)
+    (he : e ∈ handledFirst) (hb : (BinFn.ofName e.1).isSome = true) (a1 : Arg) (h1 : a1.plain = true) (A X : Mat α n k) :
+    ∃ b, BinFn.ofName e.1 = some b ∧ (b ≠ .matmul → evalEW genTables e.1 (.op c) a1 A X none = specEW b A X none) :=
+  evalEW_first genTables c e (table_first_sound c hc e he hb) a1 h1 A X
+
+/-- **`sum` over a matrix dim** (bodies `(self @ ones).squeeze(-1)`, `(self.mT @ ones).squeeze(-1)`, `(self @ ones).sum()`): row
+sums, column sums and the total, for every `n × k` matrix. -/
+theorem sum_matrix_dims_meaning (A : Mat α n k) :
+    (∀ i, sumCols A i = ∑ j, A i j) ∧ (∀ j, sumRows A j = ∑ i, A i j) ∧ sumAll A = ∑ i, ∑ j, A i j :=
+  ⟨sumCols_eq A, sumRows_eq A, sumAll_eq A⟩
+
+end Rectangular
+
+/-- **`div`** (`self.mul(1.0 / other)`) is elementwise division, by a scalar and by a tensor, over any field, `n × k`. -/
+theorem div_meaning {α : Type} [Field α] {n k : Nat} (A B : Mat α n k) (c : α) :
+    divSem A c = (fun i j => A i j / c) ∧ divSemT A B = (fun i j => A i j / B i j) :=
+  ⟨divSem_eq A c, divSemT_eq A B⟩
+
+/-- **`sum(dim)` normalises `dim` as torch does**: for an operator with `nd ≥ 2` dimensions and every `dim ≥ -nd` the branch taken
+(`cols` / `rows` / `_sum_batch(dim mod nd)` / `ValueError`) yields the shape `torch.sum(dense, dim)` has (`dim ≥ nd`: both raise). -/
+theorem sum_dim_normalisation (sh : List Nat) (h2 : 2 ≤ sh.length) (d : Int) (hlo : -(sh.length : Int) ≤ d) :
+    sumShape sh (some d) = torchSumShape sh (some d) :=
+  sumShape_eq_torch sh h2 d hlo
+
+/-- **Finding (open): `dim < -ndim`.**  `torch.sum(dense, dim)` raises `IndexError`; `LinearOperator.sum` adds `ndim` once, the
+result is still negative, is neither matrix dim and is `< ndim`, so `_sum_batch` runs with a negative dim (for a 3-dimensional
+operator and `dim = -4`: `_sum_batch(-1)`). -/
+theorem sum_dim_below_range_counterexample :
+    sumBranch 3 (some (-4)) = .below (-1) ∧ torchSumShape [2, 3, 3] (some (-4)) = none := by
+  decide
+
+/-- …for every `nd` and every `dim < -nd` (the full statement "sum(dim) has torch's shape or raises, for **all** dims" is refuted
+by the counterexample above; `sum_dim_normalisation` is the part that holds). -/
+theorem sum_dim_below_range (nd : Nat) (h2 : 2 ≤ nd) (d : Int) (h : d < -(nd : Int)) :
+    sumBranch nd (some d) = .below ((nd : Int) + d) := by
+  have hn : normDim nd d = (nd : Int) + d := by unfold normDim; rw [if_pos (by omega)]
+  simp only [sumBranch, hn]
+  split_ifs <;> first | rfl | omega
+
+section IsClose
+variable {α : Type} [Add α] [Sub α] [Mul α] [Neg α] [Zero α] [LT α] [DecidableLT α] [LE α] [DecidableLE α] {n k : Nat}
+
+/-- Generated tables: `torch.isclose` is handled by `isclose` (operator first) and by `_risclose` (operator second). -/
+theorem table_isclose_registration :
+    genTables.first.lookup "torch.isclose" = some "isclose" ∧ genTables.second.lookup "torch.isclose" = some "_risclose" ∧
+      ∀ c ∈ operatorClasses, (resolve classes c "isclose").isSome = true ∧ (resolve classes c "_risclose").isSome = true := by
+  decide +kernel
+
+/-- **`torch.isclose(x, op, rtol, atol)`, operator second**: entrywise `|X − A| ≤ atol + rtol·|A|` — the tolerance is relative to
+the operator (torch's second operand), on every operator class, `n × k` operands, any `rtol`, `atol`. -/
+theorem isclose_second_arg_generated (c : String) (hc : c ∈ operatorClasses) (a0 : Arg) (h0 : a0.plain = true)
+    (X A : Mat α n k) (rtol atol : α) :
+    evalClose genTables a0 (.op c) X A rtol atol = .ok fun i j => closeSpec rtol atol (X i j) (A i j) := by
+  obtain ⟨_, hl, hres⟩ := table_isclose_registration
+  obtain ⟨d, hd⟩ := Option.isSome_iff_exists.1 (hres c hc).2
+  exact evalClose_second genTables c d hl hd a0 h0 X A rtol atol
+
+/-- **`torch.isclose(op, x, rtol, atol)`, operator first**: `|A − X| ≤ atol + rtol·|X|`. -/
+theorem isclose_first_arg_generated (c : String) (hc : c ∈ operatorClasses) (a1 : Arg) (h1 : a1.plain = true)
+    (A X : Mat α n k) (rtol atol : α) :
+    evalClose genTables (.op c) a1 A X rtol atol = .ok fun i j => closeSpec rtol atol (A i j) (X i j) := by
+  obtain ⟨hl, _, hres⟩ := table_isclose_registration
+  obtain ⟨d, hd⟩ := Option.isSome_iff_exists.1 (hres c hc).1
+  exact evalClose_first genTables c d hl hd a1 h1 A X rtol atol
+
+end IsClose
+
+/-- Why `isclose` itself must not be the second-argument handler (the registration before notes/C15_fix_1.diff): it would compare
+in the order `(op, x)`, and `isclose` is not symmetric — `isclose(1, 3, rtol=1, atol=0)` holds, `isclose(3, 1, rtol=1, atol=0)`
+does not (integers). -/
+theorem isclose_symmetric_registration_counterexample :
+    closeSpec (1 : Int) 0 1 3 = true ∧ closeSpec (1 : Int) 0 3 1 = false := by
+  decide
+
+/-- Over any ordered field: `closeSpec` is torch's `|x − y| ≤ atol + rtol·|y|`; it **is** symmetric when `rtol = 0`; it is monotone
+in both tolerances. -/
+theorem isclose_order_semantics {α : Type} [Field α] [LinearOrder α] [IsStrictOrderedRing α] (rtol rtol' atol atol' x y : α) :
+    (closeSpec rtol atol x y = true ↔ |x - y| ≤ atol + rtol * |y|) ∧
+      closeSpec 0 atol x y = closeSpec 0 atol y x ∧
+      (rtol ≤ rtol' → atol ≤ atol' → closeSpec rtol atol x y = true → closeSpec rtol' atol' x y = true) :=
+  ⟨closeSpec_iff rtol atol x y, closeSpec_symm_rtol_zero atol x y, closeSpec_mono rtol rtol' atol atol' x y⟩
+
+/-! ### Session 5 — non-vacuity -/
+
+-- transpose: the positional form binds on both sides; `dim0=` is unknown to the method; `torch.transpose(op, 0, dim1=1)` hits "multiple values"
+example : (handlerSig "DenseLinearOperator" "transpose").map (fun s => bind (s.drop 1) ["0", "1"] []) =
+    some (.ok [("dim1", "0"), ("dim2", "1")]) := by decide +kernel
+example : (torchSig "torch.transpose").map (fun s => bind s.2 ["0", "1"] []) = some (.ok [("dim0", "0"), ("dim1", "1")]) := by
+  decide +kernel
+example : (handlerSig "DenseLinearOperator" "transpose").map (fun s => bind (s.drop 1) [] [("dim0", "0"), ("dim1", "1")]) =
+    some (.error .unexpectedKeyword) := by decide +kernel
+example : (handlerSig "DenseLinearOperator" "transpose").map (fun s => bind (s.drop 1) ["0"] [("dim1", "1")]) =
+    some (.error .multipleValues) := by decide +kernel
+example : (torchSig "torch.transpose").map (fun s => bind s.2 ["0"] [("dim1", "1")]) = some (.ok [("dim0", "0"), ("dim1", "1")]) := by
+  decide +kernel
+-- linalg.solve: only the call without extras binds on both sides
+example : (handlerSig "DenseLinearOperator" "solve").map (fun s => bind (s.drop 2) [] []) = some (.ok [("left_tensor", "None")]) := by
+  decide +kernel
+example : (torchSig "torch.linalg.solve").map (fun s => bind s.2 [] [("left", "False")]) = some (.ok [("left", "False")]) := by
+  decide +kernel
+example : (handlerSig "DenseLinearOperator" "solve").map (fun s => bind (s.drop 2) [] [("left", "False")]) =
+    some (.error .unexpectedKeyword) := by decide +kernel
+-- permute: positional values are packed, `dims=` raises
+example : (handlerSig "DenseLinearOperator" "permute").map (fun s => bindPy s ["op", "(1,0,2,3)"] []) =
+    some (.ok [("self", "op"), ("*", "((1,0,2,3))")]) := by decide +kernel
+example : (handlerSig "DenseLinearOperator" "permute").map (fun s => bindPy s ["op"] [("dims", "(1,0,2,3)")]) =
+    some (.error .unexpectedKeyword) := by decide +kernel
+-- rectangular: 2×3 times 3×1 through the reflected handler
+example : secondMMOK genTables "DenseLinearOperator" ("torch.matmul", "rmatmul") = true := by decide +kernel
+example : sumShape [2, 5, 3, 4] (some (-3)) = some [2, 3, 4] ∧ sumShape [2, 5, 3, 4] (some 3) = some [2, 5, 3] := by decide
 
 end LinOp.C15
